@@ -155,3 +155,26 @@ Proof.
   destruct (nmem DECOM (a_mode a)); [destruct (b <? hat None - 1 + t)|]; rewrite ?a_vclamp_margins; reflexivity.
 Qed.
 End S.
+
+(* IL n followed by DL n on the same line: the region is what it was, except that the n lines pushed past the bottom margin are
+   gone (blank default lines at the bottom of the region); lines outside the region are never touched *)
+Lemma c06_il_then_dl a n t b r c : reg a = (t, b) -> t <= ay a <= b ->
+  a_grid (a_dl (a_il a n) n) r c =
+  if (ay a <=? r) && (r <=? b) && (b <? r + hat n) then adc a else a_grid a r c.
+Proof.
+  intros R Hy. unfold reg in R.
+  assert (EI : a_il a n = a_cr (a_with_grid (a_dirty_range a (ay a) (a_lines a))
+      (fun r c => if (ay a <=? r) && (r <=? b) then (if r <? ay a + hat n then adc a else a_grid a (r - hat n) c) else a_grid a r c))).
+  { unfold a_il, atb. rewrite R. destruct (N.leb_spec t (ay a)), (N.leb_spec (ay a) b); try lia. reflexivity. }
+  rewrite EI. set (bb := a_cr _).
+  assert (Eb : atb bb = (t, b)) by (unfold atb; exact R).
+  assert (Ey : ay bb = ay a) by reflexivity. assert (Ed : adc bb = adc a) by reflexivity.
+  assert (G : forall r c, a_grid bb r c = if (ay a <=? r) && (r <=? b) then (if r <? ay a + hat n then adc a else a_grid a (r - hat n) c) else a_grid a r c) by reflexivity.
+  unfold a_dl. rewrite Eb, Ey, Ed. destruct (N.leb_spec t (ay a)), (N.leb_spec (ay a) b); try lia. cbn [andb].
+  cbn [a_grid a_cr a_x a_xy a_with_cur a_with_grid]. rewrite !G. clearbody bb.
+  destruct (N.leb_spec (ay a) r); cbn [andb]; [|reflexivity].
+  destruct (N.leb_spec r b); cbn [andb]; [|reflexivity].
+  destruct (N.leb_spec (r + hat n) b), (N.ltb_spec b (r + hat n)); try lia; [|reflexivity].
+  destruct (N.leb_spec (ay a) (r + hat n)); [|lia]. cbn [andb].
+  destruct (N.ltb_spec (r + hat n) (ay a + hat n)); [lia|]. f_equal. lia.
+Qed.
